@@ -186,52 +186,21 @@ func checkC12(c *Ctx, r *Report) {
 			}
 			r.Check(okSingle, name+"|single suite without discovery", sel.Pos(), "returned directly", whySingle)
 
-			// preference loop
-			okLoop, whyLoop := false, "no loop over the caller's list returning its first advertised element"
-			for _, ret := range returnsOf(sel) {
-				if isNilConst(ret.Results[0]) {
-					continue
-				}
-				if ia, isIA := ret.Results[0].(*ssa.IndexAddr); isIA && ia.X == ssa.Value(eff) {
-					if _, isK := constInt(ia.Index); isK {
-						continue
-					}
-				}
-				// pointer returned: an Alloc per iteration holding eff[i], or &eff[i]
-				var elemIdx ssa.Value
-				switch x := ret.Results[0].(type) {
-				case *ssa.Alloc:
-					for _, ref := range *x.Referrers() {
-						if st, isSt := ref.(*ssa.Store); isSt && st.Addr == ssa.Value(x) {
-							if ld, isLd := st.Val.(*ssa.UnOp); isLd && ld.Op == token.MUL {
-								if ia, isIA := ld.X.(*ssa.IndexAddr); isIA && ia.X == ssa.Value(eff) {
-									elemIdx = ia.Index
-								}
-							}
-						}
-					}
-				case *ssa.IndexAddr:
-					if x.X == ssa.Value(eff) {
-						elemIdx = x.Index
-					}
-				}
-				if elemIdx == nil {
-					whyLoop = "the loop that returns does not iterate over the caller's preference list"
-					continue
-				}
-				// ascending by one from the start
-				asc := false
-				if bo, isBo := elemIdx.(*ssa.BinOp); isBo && bo.Op == token.ADD {
+			// preference loop: find the membership test — a comma-ok lookup, keyed by the element of the
+			// caller's list at an ascending induction index, in a set built from the discovery result
+			okLoop, whyLoop := false, "no ascending loop over the caller's list testing membership in the advertised set"
+			ascending := func(idx ssa.Value) bool {
+				if bo, isBo := idx.(*ssa.BinOp); isBo && bo.Op == token.ADD {
 					if ph, isPh := bo.X.(*ssa.Phi); isPh {
 						if k, isK := constInt(bo.Y); isK && k == 1 {
 							for _, e := range ph.Edges {
 								if k0, isK0 := constInt(e); isK0 && k0 == -1 {
-									asc = true
+									return true
 								}
 							}
 						}
 					}
-				} else if ph, isPh := elemIdx.(*ssa.Phi); isPh {
+				} else if ph, isPh := idx.(*ssa.Phi); isPh {
 					z, inc := false, false
 					for _, e := range ph.Edges {
 						if k0, isK0 := constInt(e); isK0 && k0 == 0 {
@@ -243,66 +212,187 @@ func checkC12(c *Ctx, r *Report) {
 							}
 						}
 					}
-					asc = z && inc
+					return z && inc
 				}
-				if !asc {
+				return false
+			}
+			// element of eff: value → index
+			elemIndex := func(v ssa.Value) ssa.Value {
+				ld, ok := v.(*ssa.UnOp)
+				if !ok || ld.Op != token.MUL {
+					return nil
+				}
+				switch a := ld.X.(type) {
+				case *ssa.IndexAddr:
+					if a.X == ssa.Value(eff) {
+						return a.Index
+					}
+				case *ssa.Alloc:
+					if sv := singleStore(a); sv != nil {
+						if l2, ok := sv.(*ssa.UnOp); ok && l2.Op == token.MUL {
+							if ia, ok := l2.X.(*ssa.IndexAddr); ok && ia.X == ssa.Value(eff) {
+								return ia.Index
+							}
+						}
+					}
+				}
+				return nil
+			}
+			loops := naturalLoops(sel)
+			for _, ifi := range ifsOf(sel) {
+				ex, isEx := ifi.Cond.(*ssa.Extract)
+				if !isEx || ex.Index != 1 {
+					continue
+				}
+				lk, isLk := ex.Tuple.(*ssa.Lookup)
+				if !isLk || !lk.CommaOk {
+					continue
+				}
+				idx := elemIndex(lk.Index)
+				if idx == nil {
+					whyLoop = "the membership test is not keyed by an element of the caller's preference list"
+					continue
+				}
+				if !ascending(idx) {
 					whyLoop = "the caller's list is not walked in ascending order from its first element"
 					continue
 				}
-				// guarded by membership: a map lookup (comma-ok) true edge dominating the return; map filled from the discovery result
-				member := false
-				for _, ifi := range ifsOf(sel) {
-					ex, isEx := ifi.Cond.(*ssa.Extract)
-					if !isEx || ex.Index != 1 {
-						continue
-					}
-					lk, isLk := ex.Tuple.(*ssa.Lookup)
-					if !isLk || !lk.CommaOk {
-						continue
-					}
-					if !reachAvoiding(sel, nil, nil, map[edge]bool{{ifi.Block(), ifi.Block().Succs[0]}: true})[ret.Block()] {
-						// key must be the element under consideration
-						if ld, isLd := lk.Index.(*ssa.UnOp); isLd {
-							okKey := false
-							switch a := ld.X.(type) {
-							case *ssa.IndexAddr:
-								okKey = a.X == ssa.Value(eff) && a.Index == elemIdx
-							case *ssa.Alloc:
-								okKey = a == ret.Results[0]
-							}
-							// map populated from discovery result
-							filled := false
-							if mm, isMM := lk.X.(*ssa.MakeMap); isMM {
-								for _, ref := range *mm.Referrers() {
-									if mu, isMU := ref.(*ssa.MapUpdate); isMU {
-										for _, l := range leavesOf(mu.Key) {
-											if ld2, ok := l.(*ssa.UnOp); ok && ld2.Op == token.MUL {
-												root := apOf(ld2.X).Root
-												if ex2, ok := root.(*ssa.Extract); ok {
-													if call, ok := ex2.Tuple.(*ssa.Call); ok {
-														for _, d := range disc {
-															if d == ssa.Instruction(call) {
-																filled = true
-															}
-														}
-													}
+				// set filled from the discovery result
+				filled := false
+				if mm, isMM := lk.X.(*ssa.MakeMap); isMM {
+					for _, ref := range *mm.Referrers() {
+						if mu, isMU := ref.(*ssa.MapUpdate); isMU {
+							for _, l := range leavesOf(mu.Key) {
+								if ld2, ok := l.(*ssa.UnOp); ok && ld2.Op == token.MUL {
+									if ex2, ok := apOf(ld2.X).Root.(*ssa.Extract); ok {
+										if call, ok := ex2.Tuple.(*ssa.Call); ok {
+											for _, d := range disc {
+												if d == ssa.Instruction(call) {
+													filled = true
 												}
 											}
 										}
 									}
 								}
 							}
-							member = okKey && filled
 						}
 					}
 				}
-				if !member {
-					whyLoop = "the returned preference is not guarded by membership in a set built from the advertised suites"
+				if !filled {
+					whyLoop = "the membership set is not built from the advertised suites"
 					continue
 				}
-				okLoop = true
+				L := innermostLoop(loops, ifi.Block())
+				if L == nil {
+					whyLoop = "the membership test is not inside a loop over the caller's list"
+					continue
+				}
+				memberEdge := edge{ifi.Block(), ifi.Block().Succs[0]}
+				// shape A: return of the element under the member edge, inside the loop region
+				for _, ret := range returnsOf(sel) {
+					if isNilConst(ret.Results[0]) {
+						continue
+					}
+					var ridx ssa.Value
+					switch x := ret.Results[0].(type) {
+					case *ssa.Alloc:
+						if sv := singleStore(x); sv != nil {
+							if l2, ok := sv.(*ssa.UnOp); ok && l2.Op == token.MUL {
+								if ia, ok := l2.X.(*ssa.IndexAddr); ok && ia.X == ssa.Value(eff) {
+									ridx = ia.Index
+								}
+							}
+						}
+					case *ssa.IndexAddr:
+						if x.X == ssa.Value(eff) {
+							ridx = x.Index
+						}
+					}
+					if ridx != nil && ridx == idx && !reachAvoiding(sel, nil, nil, map[edge]bool{memberEdge: true})[ret.Block()] {
+						okLoop = true
+					}
+				}
+				// shape B: members appended, in loop order, to an initially empty list; the first one is returned
+				for _, b := range L.blockList() {
+					for _, in := range b.Instrs {
+						call, ok := in.(*ssa.Call)
+						if !ok {
+							continue
+						}
+						bi, ok := call.Call.Value.(*ssa.Builtin)
+						if !ok || bi.Name() != "append" {
+							continue
+						}
+						// guarded by the member edge
+						if reachAvoiding(sel, nil, nil, map[edge]bool{memberEdge: true})[b] {
+							continue
+						}
+						acc, isPhi := call.Call.Args[0].(*ssa.Phi)
+						if !isPhi || acc.Block() != L.Header {
+							continue
+						}
+						// appended element is the tested element
+						appended := false
+						if sl, ok := call.Call.Args[1].(*ssa.Slice); ok {
+							if al, ok := sl.X.(*ssa.Alloc); ok {
+								for _, ref := range *al.Referrers() {
+									if ia, ok := ref.(*ssa.IndexAddr); ok {
+										for _, r2 := range *ia.Referrers() {
+											if st, ok := r2.(*ssa.Store); ok && elemIndex(st.Val) == idx {
+												appended = true
+											}
+										}
+									}
+								}
+							}
+						}
+						// accumulator starts empty and is only updated by this append
+						startsEmpty, onlyThis := false, true
+						for i, e := range acc.Edges {
+							if !L.Blocks[L.Header.Preds[i]] {
+								switch x := e.(type) {
+								case *ssa.Slice:
+									if k, isK := constInt(x.High); isK && k == 0 {
+										startsEmpty = true
+									}
+								case *ssa.Const:
+									startsEmpty = x.Value == nil
+								case *ssa.MakeSlice:
+									if k, isK := constInt(x.Len); isK && k == 0 {
+										startsEmpty = true
+									}
+								}
+							} else if e != ssa.Value(call) && e != ssa.Value(acc) {
+								// other in-loop updates (φ of call/acc through the non-member arm are fine)
+								if ph2, ok := e.(*ssa.Phi); ok {
+									for _, e2 := range ph2.Edges {
+										if e2 != ssa.Value(call) && e2 != ssa.Value(acc) {
+											onlyThis = false
+										}
+									}
+								} else {
+									onlyThis = false
+								}
+							}
+						}
+						if !appended || !startsEmpty || !onlyThis {
+							continue
+						}
+						// a return of &acc[0] after the loop
+						for _, ret := range returnsOf(sel) {
+							if ia, ok := ret.Results[0].(*ssa.IndexAddr); ok && ia.X == ssa.Value(acc) {
+								if k, isK := constInt(ia.Index); isK && k == 0 && !L.Blocks[ret.Block()] {
+									okLoop = true
+								}
+							}
+						}
+					}
+				}
+				if !okLoop {
+					whyLoop = "the suite returned is not the first element of the caller's list (in list order) found in the advertised set"
+				}
 			}
-			r.Check(okLoop, name+"|first advertised preference", sel.Pos(), "ascending walk of the caller's list, membership in the advertised set", whyLoop)
+			r.Check(okLoop, name+"|first advertised preference", sel.Pos(), "ascending walk of the caller's list, membership in the advertised set, first member returned", whyLoop)
 
 			// exhaustion sentinel; discovery error propagated
 			okSent := false
